@@ -123,12 +123,15 @@ def collect_cases(results, limit=None, rng=None):
     return cases
 
 
-def _uses(e, names):
+PANDAS_ONLY_FNS = ("cumprod", "first", "last", "ffill", "bfill")
+
+
+def _uses(e, names, tags=("u", "b", "t")):
     if not isinstance(e, list):
         return False
-    if len(e) >= 2 and e[0] in ("u", "b", "t") and e[1] in names:
+    if len(e) >= 2 and e[0] in tags and e[1] in names:
         return True
-    return any(_uses(x, names) for x in e if isinstance(x, list))
+    return any(_uses(x, names, tags) for x in e if isinstance(x, list))
 
 
 def pg_fragment(case):
@@ -171,6 +174,10 @@ def judge_all(prop, vd, cases, backends, *, allow_raise=("polars", "polars_lazy"
                 if isinstance(si, int) and case["prog"][si][0] not in relevant_ops:
                     stats["%s:upstream_%s_at_other_step" % (b_, v[0])] += 1
                     continue
+            if b_.split("/")[0] in ("sqlite", "pg") and _uses(case["prog"], PANDAS_ONLY_FNS, tags=("w",)):
+                # the method catalogue does not claim these window functions for the SQL dialects
+                stats["%s:not_claimed_by_catalogue" % b_] += 1
+                continue
             if b_.split("/")[0] == "pg" and not pg_fragment(case):
                 stats["pg:outside_proxy_fragment"] += 1
                 continue
